@@ -46,15 +46,15 @@ ASSUMPTIONS = [
     "line statements: only losslessness and line numbers are checked (no trimming prediction)",
 ]
 NSHARDS = {"quick": 16, "thorough": 16}
-BUDGET_S = {"quick": 20, "thorough": 420}
+BUDGET_S = {"quick": 15, "thorough": 420}
 FLOORS = {
-    "quick": {"evaluations": 30000, "distinct": 1500,
-              "counters": {"lex_calls": 30000, "tokens_line_checked": 200000,
-                           "oracle_lossless": 30000, "oracle_data": 30000,
-                           "tokens_after_stripped_newline": 10000,
-                           "tokens_in_multiline_tag": 3000,
-                           "cases_exhaustive": 20000, "cases_random": 6000,
-                           "cases_custom_delims": 3000, "cases_linestmt": 300}},
+    "quick": {"evaluations": 45000, "distinct": 8000,
+              "counters": {"lex_calls": 45000, "tokens_line_checked": 500000,
+                           "oracle_lossless": 45000, "oracle_data": 42000,
+                           "tokens_after_stripped_newline": 300000,
+                           "tokens_in_multiline_tag": 30000,
+                           "cases_exhaustive": 35000, "cases_random": 7000,
+                           "cases_custom_delims": 3000, "cases_linestmt": 2000}},
     "thorough": {"evaluations": 400000, "distinct": 3000,
                  "counters": {"lex_calls": 400000, "tokens_line_checked": 3000000,
                               "oracle_lossless": 400000, "oracle_data": 400000,
@@ -204,7 +204,7 @@ def check_tokens(st, p, toks, case, dname, tb, ls, optional_spans=None, check_da
                 f"data-whitespace:{dname}:{key}",
                 f"source {case['source']!r} trim_blocks={tb} lstrip_blocks={ls}: data tokens "
                 f"carry {got!r}, documented rules keep {exp!r} (first divergence in the run "
-                f"{g['run']!r} between {M.tagname(g['A'])} and {M.tagname(g['B'])})", case)
+                f"{g['run']!r} between {M.tagname(g['A'], 'start')} and {M.tagname(g['B'], 'end')})", case)
     # coverage of the line oracle
     if starts is not None:
         nchk = 0
@@ -344,8 +344,9 @@ def run(ctx):
                 for tb, ls in SETTINGS:
                     check_case(st, skel, "default", tb, ls)
                     ctx.count("cases_exhaustive")
-    T2 = ["\n ", " ", " \n\n "] if quick else G.T2_THOROUGH + ["\n\n"]
+    T2 = ["\n ", " \n\n "] if quick else G.T2_THOROUGH + ["\n\n"]
     t2_all = list(itertools.product(T2, repeat=3))
+    rng = ctx.rng("n2")
     for seq in M.tag_sequences(2):
         for mods in mod_products(seq):
             idx += 1
@@ -355,11 +356,12 @@ def run(ctx):
                 complete = False
                 ctx.count("exhaustive_n2_cut")
                 break
-            for texts in t2_all:
+            tl = t2_all + [tuple(rng.choice(G.T1) for _ in range(3)) for _ in range(2)]
+            for texts in tl:
                 skel = G.skeleton_from(seq, mods, texts)
                 for tb, ls in SETTINGS:
                     check_case(st, skel, "default", tb, ls)
-            ctx.count("cases_exhaustive", len(t2_all) * 4)
+            ctx.count("cases_exhaustive", len(tl) * 4)
         if not complete:
             break
     ctx.exhaustive = complete
